@@ -65,7 +65,7 @@ def check(pid, tier, seed):
             for (pal, mult) in vs if pi % 7 == 0 else [vs[pi % len(variants)]]:
                 xid = "f%d" % n
                 n += 1
-                lines.append("X %s pal=%d mult=%d kind=%s content=%s dir=%s" % (xid, pal, mult, s0["kind"], sy(s0["content"]), scratch))
+                lines.append("X %s pal=%d mult=%d kind=%s content=%s link=%d dir=%s" % (xid, pal, mult, s0["kind"], sy(s0["content"]), 1 if n % 5 == 2 else 0, scratch))
                 lines += [step_line(g, ei) for ei in path]
                 lines.append("E")
                 meta[xid] = (path, pal, mult)
